@@ -556,8 +556,9 @@ func c06ServeSig(in *c06In, hosts []string) string {
 			return "serve:all-wildcard-site"
 		}
 	}
-	// the router normalises the host once more than the strict SNI = Host test does
-	// (a second port strip, brackets of a port-less literal)
+	// the router normalises the host once more than the port strip of serveHTTP does (a second
+	// port strip, brackets of a port-less literal); the strict SNI = Host test has to look at the
+	// routed name (F-C06-2, repaired: the class stays so that a regression is named)
 	if c06RouterHost(hostname) != strings.ToLower(hostname) {
 		return "serve:host-renormalized-by-router"
 	}
